@@ -46,6 +46,7 @@ func connScenario(cr *childRun, sid int) {
 	cfg.Set("mempool_broadcast", true)
 	cfg.Set("mempool_wal_dir", "")
 	cfg.Set("block_size", 100)
+	cfg.Set("handshake_timeout_seconds", 2)
 	pool := mempool.NewMempool(cfg)
 	memR := mempool.NewTxReactor(cfg, pool)
 	node := newRNode(cr, "conn", cfg, "127.0.0.1:26656")
